@@ -262,3 +262,53 @@ CASES += [
  # wrong: hints read from the unfiltered text
  dict(id='sudoku-hints-zero-skipped', kind='fire', file=U, old='if char::is_digit(ch, 10) {', new="if char::is_digit(ch, 10) && ch != '5' {", expect={'C17': 'hints'}),
 ]
+
+_EXISTS_OLD = '''        if s.is_empty() {
+            b
+        } else {
+            let first = &s[0];
+            let remainder = s[1..].to_vec();
+
+            self.exists_impl(first, self.exists(remainder, b))
+        }
+'''
+_INSERT_OLD = '''        let new_item = (0..self.bits)
+            .map(|i| {
+                if e.categorize(i) {
+                    self.env.var(i)
+                } else {
+                    self.env.not(self.env.var(i))
+                }
+            })
+            .fold(self.env.mk_const(true), |a, e| self.env.and(a, e));
+'''
+def _insert_loop(lo):
+    return '''        let mut new_item = self.env.mk_const(true);
+        for i in %s..self.bits {
+            let literal = if e.categorize(i) {
+                self.env.var(i)
+            } else {
+                self.env.not(self.env.var(i))
+            };
+            new_item = self.env.and(new_item, literal);
+        }
+''' % lo
+CASES += [
+ # recursion -> fold over the reversed list (same calls in the same order): proved by induction with the function's own summary
+ dict(id='exists-fold-rev', kind='silent', file=B, old=_EXISTS_OLD, new='''        s.iter()
+            .rev()
+            .fold(b, |acc, symbol| self.exists_impl(symbol, acc))
+''', checks=['C01', 'C04', 'C09', 'C12']),
+ dict(id='exists-fold-drops-first', kind='fire', file=B, old=_EXISTS_OLD, new='''        s.iter()
+            .skip(1)
+            .rev()
+            .fold(b, |acc, symbol| self.exists_impl(symbol, acc))
+''', expect={'C04': 'exists'}),
+ dict(id='exists-fold-ignores-acc', kind='fire', file=B, old=_EXISTS_OLD, new='''        s.iter()
+            .rev()
+            .fold(b.clone(), |_acc, symbol| self.exists_impl(symbol, b.clone()))
+''', expect={'C04': 'exists'}),
+ # iterator pipeline -> explicit accumulator loop
+ dict(id='set-insert-loop', kind='silent', file=S, old=_INSERT_OLD, new=_insert_loop('0'), checks=['C19', 'C12']),
+ dict(id='set-insert-loop-from-one', kind='fire', file=S, old=_INSERT_OLD, new=_insert_loop('1'), expect={'C19': 'insert'}),
+]
